@@ -128,7 +128,17 @@ class state_machine_base : public FrontEnd
             // If not, this state is simply a terminate state.
             if (m_forward_fn)
             {
-                m_forward_fn(root_sm, &forward_event);
+                // The type-erased handler expects the exit pseudostate's
+                // event type, convert before handing it over.
+                if constexpr (std::is_same_v<ForwardEvent, event>)
+                {
+                    m_forward_fn(root_sm, &forward_event);
+                }
+                else
+                {
+                    const event converted_event(forward_event);
+                    m_forward_fn(root_sm, &converted_event);
+                }
             }
         }
 
